@@ -41,7 +41,7 @@ pub struct Findings {
 }
 
 pub fn load_findings() -> Result<Findings, String> {
-    let p = format!("{}/known_findings.json", crate::VERIF_DIR);
+    let p = format!("{}/known_findings.json", crate::verif_dir());
     match std::fs::read(&p) {
         Ok(d) => serde_json::from_slice(&d).map_err(|e| format!("{}: {}", p, e)),
         Err(_) => Ok(Findings::default()),
@@ -152,7 +152,7 @@ pub fn conclude(cfg: &CheckCfg, mut agg: Agg, scratch: &Path, started: Instant) 
     let mut violation_lines = vec![];
     let mut violations_json = vec![];
     if !unknown.is_empty() {
-        let dir = format!("{}/replays", crate::VERIF_DIR);
+        let dir = format!("{}/replays", crate::verif_dir());
         let _ = std::fs::create_dir_all(&dir);
         let mut ctx = RunCtx::new(scratch.join("shrink"));
         ctx.manifest = prop == "C13";
@@ -249,7 +249,7 @@ pub fn conclude(cfg: &CheckCfg, mut agg: Agg, scratch: &Path, started: Instant) 
         "wall_s": wall,
         "violations": violation_lines.len(),
     });
-    let dir = format!("{}/evidence", crate::VERIF_DIR);
+    let dir = format!("{}/evidence", crate::verif_dir());
     let _ = std::fs::create_dir_all(&dir);
     let path = format!("{}/{}.json", dir, prop);
     if let Err(e) = std::fs::write(&path, serde_json::to_vec_pretty(&ev).unwrap_or_default()) {
